@@ -111,6 +111,38 @@ def program(u):
             for k, v in opt.state[p].items():
                 if k != "step":
                     have.add((pi, k))
+        # placement of the state DTensors: within this rank's distribution group the mesh of a state tensor contains the owner only
+        from torch.distributed.tensor import DTensor as _DT
+
+        if kind == "ddp":
+            my_group = set(range((rank // u["b"]) * u["b"], (rank // u["b"] + 1) * u["b"]))
+        else:
+            my_group = {r for r in range(W) if r % u["b"] == rank % u["b"]}
+
+        def walk(o):
+            if isinstance(o, _DT):
+                yield o
+            elif isinstance(o, dict):
+                for v in o.values():
+                    yield from walk(v)
+            elif isinstance(o, (list, tuple)):
+                for v in o:
+                    yield from walk(v)
+            elif hasattr(o, "__dict__"):
+                yield from walk(vars(o))
+
+        for pi, p in enumerate(params):
+            for k, v in opt.state[p].items():
+                if k == "step":
+                    continue
+                for t in walk(v):
+                    mesh_ranks = set(t.device_mesh.mesh.reshape(-1).tolist())
+                    if mesh_ranks & my_group != {rank}:
+                        msgs.append(f"state of block {k} of parameter {pi} is placed on mesh {sorted(mesh_ranks)}: within the distribution group {sorted(my_group)} it must live on the owner (rank {rank}) only")
+                        break
+                else:
+                    continue
+                break
         if len(have) != len(owned_keys) or len(owned_keys) != sum(sel):
             msgs.append(f"optimizer state exists for {len(have)} blocks but this rank owns {sum(sel)} ({len(owned_keys)} block infos)")
         # one step must run with these buffers (sizes are really sufficient)
